@@ -349,6 +349,108 @@ func sysGroupCase(idx int, muxed, window bool) (string, []int, error) {
 	return fmt.Sprintf("CHand true [HDispatch; HCloser] %s [(0, %d)]", hx.List(sched), fate), []int{fate}, nil
 }
 
+// ---- group members: two members, a user connection pending in the hand-off, member 0 (or both) closed at
+// that moment, then the members' Accept calls (the harness is both proxies' accept loop).  Exported API only.
+// variant 0: nobody closes; 1: member 0 closes, then its Accept runs (the select is ambiguous: the outcome
+// is observed and handed to the model as the oracle), then member 1's; 2: both close (last one closes the channel).
+func groupMemberCase(addr string, idx, variant int) (string, int, error) {
+	pm := ports.NewManager("tcp", addr, nil)
+	ctl := group.NewTCPGroupCtl(pm)
+	port := hx.FreePort(addr)
+	grp := fmt.Sprintf("gm%d", idx)
+	la, _, err := ctl.Listen("pA", grp, "k", addr, port)
+	if err != nil {
+		return "", 0, err
+	}
+	lb, _, err := ctl.Listen("pB", grp, "k", addr, port)
+	if err != nil {
+		return "", 0, err
+	}
+	members := []net.Listener{la, lb}
+	closedM := []bool{false, false}
+	defer func() {
+		for i, l := range members {
+			if !closedM[i] {
+				_ = l.Close()
+			}
+		}
+	}()
+	// threads: 0 the connection, 1 loop of member 0, 2 loop of member 1, 3 closer of member 0, 4 closer of member 1
+	reqs := "[GConn; GLoop 0; GLoop 1; GCloser 0; GCloser 1]"
+	u, err := net.Dial("tcp", net.JoinHostPort(addr, fmt.Sprint(port)))
+	if err != nil {
+		return "", 0, err
+	}
+	defer u.Close()
+	time.Sleep(40 * time.Millisecond) // the worker has accepted it and stands in the send
+	sched := []string{"0"}
+	var picks []string
+	closeMember := func(m int) {
+		_ = members[m].Close()
+		closedM[m] = true
+		sched = append(sched, fmt.Sprint(3+m), fmt.Sprint(3+m))
+	}
+	type res struct {
+		c   net.Conn
+		err error
+	}
+	accept := func(m int) (net.Conn, bool, bool) { // conn, returned, error
+		ch := make(chan res, 1)
+		go func() {
+			c, err := members[m].Accept()
+			ch <- res{c, err}
+		}()
+		select {
+		case r := <-ch:
+			sched = append(sched, fmt.Sprint(1+m))
+			return r.c, true, r.err != nil
+		case <-time.After(300 * time.Millisecond):
+			return nil, false, false
+		}
+	}
+	var got net.Conn
+	by := -1
+	switch variant {
+	case 0:
+		if c, ret, isErr := accept(idx % 2); ret && !isErr {
+			got, by = c, idx%2
+		}
+	case 1:
+		closeMember(0)
+		c, ret, isErr := accept(0)
+		if ret {
+			picks = append(picks, hx.Bool(!isErr)) // both closeCh and the hand-off were ready
+			if !isErr {
+				got, by = c, 0
+			}
+		}
+		if got == nil {
+			if c, ret, isErr := accept(1); ret && !isErr {
+				got, by = c, 1
+			}
+		}
+	case 2:
+		closeMember(0)
+		closeMember(1)
+		sched = append(sched, "0") // the worker's send meets the closed channel
+	}
+	sched = append(sched, "0")
+	fate := 3
+	if got != nil {
+		// the member's handler has it: serve one byte, then close (its session is going away)
+		_, _ = got.Write([]byte("s"))
+		b := make([]byte, 1)
+		_ = u.SetReadDeadline(time.Now().Add(500 * time.Millisecond))
+		if n, _ := u.Read(b); n == 1 && b[0] == 's' {
+			fate = 10 + by
+		}
+		_ = got.Close()
+	} else if hx.ConnClosedWithin(u, 600*time.Millisecond) {
+		fate = 2
+	}
+	return fmt.Sprintf("CGroup 2 %s %s %s [(0, %d)]", reqs, hx.List(sched), hx.List(picks), fate), fate, nil
+}
+
 func runHandoff(cfg *hx.RunCfg) error {
 	quiet()
 	hooks.install()
@@ -398,6 +500,27 @@ func runHandoff(cfg *hx.RunCfg) error {
 			if f == 3 {
 				lost[name]++
 			}
+		}
+	}
+	// group members' Accept against a pending hand-off
+	gmN := 14
+	if cfg.Tier != "quick" {
+		gmN = 60
+	}
+	for i := 0; i < gmN; i++ {
+		variant := []int{1, 1, 1, 0, 1, 2, 1}[i%7]
+		text, fate, err := groupMemberCase("127.0.11.203", i, variant)
+		if err != nil {
+			fails = append(fails, map[string]any{"key": "handoff-setup", "what": err.Error(), "case": "group member case"})
+			continue
+		}
+		cases = append(cases, text)
+		dist[fmt.Sprintf("group-member-v%d", variant)]++
+		dist[fmt.Sprintf("gfate%d", fate)]++
+		if fate == 3 {
+			fails = append(fails, map[string]any{"key": "group-conn-taken-and-dropped",
+				"what": "a user connection pending in the group's hand-off while member 0 was closed was neither served by a member nor closed: it is open with no peer",
+				"case": text})
 		}
 	}
 	// full-system replays through the real gates
